@@ -155,7 +155,8 @@ func GenOp(t *rapid.T, w *World, p *Profile) Op {
 	add("dvf", rollbackOK)
 	add("setnil", true)
 	add("read", true)
-	add("hop", w.Latest > 0 && !w.Dirty)
+	// the importer allocates a nonce table of size version+1: keep imports to realistic version numbers
+	add("hop", w.Latest > 0 && !w.Dirty && w.Latest < 1<<20)
 	total := 0
 	for _, c := range cs {
 		total += c.wt
